@@ -2,10 +2,19 @@
 
 package preprocessor
 
-import "sync"
+import (
+	"sync"
+
+	"github.com/internetarchive/Zeno/internal/pkg/veriflib"
+	"github.com/internetarchive/Zeno/pkg/models"
+)
 
 // VerifReset lets a harness start the stage again in the same process after Stop() (overlay-only, not in /repo).
 func VerifReset() {
 	once = sync.Once{}
 	globalPreprocessor = nil
 }
+
+// VerifPreprocess runs the stage's preprocess() on a seed's tree for harnesses of other packages (overlay-only; called
+// through veriflib.Call, so that the private parameter list may change).
+func VerifPreprocess(workerID string, seed *models.Item) { veriflib.Call(preprocess, workerID, seed) }
